@@ -5,12 +5,15 @@ table CompartmentedModel._effects of every shipped compartmented model are read 
 objects on every run (build() against a real dynamics) and handed to Coq as the table of each
 case; Coq re-checks wf_loci / single_orientation of every extracted table and instantiates the
 general theorems at it.
-Tie B: histories of the six mutating calls are driven through the real CompartmentedModel API
-on a real dynamics; after set-up and after every call the network, every node's compartment
-attribute and list(locus) of every compartment-tracking locus are dumped and compared with
-Model/Loci.v by vm_compute.
+Tie B: histories of the six mutating calls and of the four bulk calls of Process (addNodesFrom,
+removeNodesFrom, addEdgesFrom, removeEdgesFrom: one call = the single-element calls in order up to
+the first that raises) are driven through the real CompartmentedModel API on a real dynamics;
+after set-up and after every call the network, every node's compartment attribute and list(locus)
+of every compartment-tracking locus are dumped and compared with Model/Loci.v by vm_compute.
 D: truth is recomputed from Dynamics.network() and the node attributes after every call and
-compared with every locus and with the per-element event rates, with no reference to the model."""
+compared with every locus and with the per-element event rates, with no reference to the model;
+every call of a history is judged (also calls that raise, whatever they left behind) up to the
+first MISUSE that does not raise (setCompartment on a node that has a compartment)."""
 import itertools
 import json
 import os
@@ -207,7 +210,7 @@ class View:
         k = op[0]
         c = (lambda i: self.comps[i])
         kw = {}
-        if k == 'addedge' and hasattr(m, 'INFECTIVITY'):
+        if k in ('addedge', 'addedges') and hasattr(m, 'INFECTIVITY'):
             kw = {m.INFECTIVITY: 0.5}
         try:
             if k == 'set':
@@ -225,6 +228,18 @@ class View:
                 m.addEdge(op[1], op[2], **kw)
             elif k == 'rmedge':
                 m.removeEdge(op[1], op[2])
+            elif k == 'addnodes':
+                # Process.addNodesFrom(ns, **kwds) -> self.addNode(n, **kwds): the compartment travels as keyword c
+                if op[2] is None:
+                    m.addNodesFrom(list(op[1]))
+                else:
+                    m.addNodesFrom(list(op[1]), c=c(op[2]))
+            elif k == 'rmnodes':
+                m.removeNodesFrom(list(op[1]))
+            elif k == 'addedges':
+                m.addEdgesFrom([tuple(e) for e in op[1]], **kw)
+            elif k == 'rmedges':
+                m.removeEdgesFrom([tuple(e) for e in op[1]])
             else:
                 raise AssertionError(op)
             return None
@@ -301,18 +316,45 @@ class LiveMulti:
 
 # ------------------------------------------------------------------ a shadow of the network state for the generator and for D
 
+BULK = {'addnodes': 'addnode', 'rmnodes': 'rmnode', 'addedges': 'addedge', 'rmedges': 'rmedge'}
+
+
+def expand(op):
+    """a bulk call as the single-element calls Process makes for it, in order (a single call: itself)"""
+    k = op[0]
+    if k == 'addnodes':
+        return [['addnode', n, op[2]] for n in op[1]]
+    if k == 'rmnodes':
+        return [['rmnode', n] for n in op[1]]
+    if k == 'addedges':
+        return [['addedge', e[0], e[1]] for e in op[1]]
+    if k == 'rmedges':
+        return [['rmedge', e[0], e[1]] for e in op[1]]
+    return [op]
+
+
 class Shadow:
-    """nodes / undirected edges / compartment attribute, as far as the six calls change them
-    (independent of the loci; used to steer the generator and to evaluate the preconditions)."""
+    """nodes / undirected edges / compartment attribute, as far as the calls change them
+    (independent of the loci; used to steer the generator and to evaluate the preconditions).
+    A bulk call is its single-element calls in order, up to the first one that raises."""
 
     def __init__(self, nodes, edges, init):
         self.nodes = list(nodes)
         self.edges = {frozenset(e) for e in edges}
         self.comp = {n: c for n, c in zip(nodes, init)}     # value 'missing' = no attribute
 
-    def pre(self, op):
+    def copy(self):
+        sh = Shadow([], [], [])
+        sh.nodes = list(self.nodes); sh.edges = set(self.edges); sh.comp = dict(self.comp)
+        return sh
+
+    # ---- one single-element call
+    def _has(self, n):
+        return n in self.comp and self.comp[n] != 'missing'
+
+    def _pre1(self, op):
         k = op[0]
-        has = lambda n: n in self.comp and self.comp[n] != 'missing'
+        has = self._has
         if k == 'set':
             return op[1] in self.comp and self.comp[op[1]] in ('missing', None)
         if k == 'change':
@@ -327,10 +369,10 @@ class Shadow:
             return frozenset((op[1], op[2])) in self.edges
         raise AssertionError(op)
 
-    def raises(self, op):
-        """the call raises (and, by the comparison made at the end of every history, changes nothing)"""
+    def _raises1(self, op):
+        """the call raises (and, by the comparison with the model made after every call, changes nothing)"""
         k = op[0]
-        has = lambda n: n in self.comp and self.comp[n] != 'missing'
+        has = self._has
         if k == 'set':
             return op[1] not in self.comp
         if k in ('change', 'rmnode'):
@@ -341,12 +383,23 @@ class Shadow:
             return not (has(op[1]) and has(op[2])) or frozenset((op[1], op[2])) not in self.edges
         return False
 
-    def outside(self, op):
+    def _outside1(self, op):
         # addEdge on an existing node without the attribute: the edge is added, then KeyError
         return op[0] == 'addedge' and op[1] in self.comp and op[2] in self.comp and \
             (self.comp[op[1]] == 'missing' or self.comp[op[2]] == 'missing')
 
-    def apply(self, op):
+    def _misuse1(self, op):
+        """a call the code accepts without complaint although its documented precondition fails: setCompartment (also
+        through addNode(n, c) on a node that is already there) on a node that HAS a compartment - 'assumes that the
+        node doesn't already have a compartment set'; the loci are not constrained after it"""
+        occupied = op[1] in self.comp and self.comp[op[1]] not in ('missing', None)
+        if op[0] == 'set':
+            return occupied
+        if op[0] == 'addnode':
+            return op[2] is not None and occupied
+        return False
+
+    def _apply1(self, op):
         k = op[0]
         if k == 'set':
             if op[1] in self.comp:
@@ -364,10 +417,42 @@ class Shadow:
                 self.nodes.remove(op[1]); del self.comp[op[1]]
                 self.edges = {e for e in self.edges if op[1] not in e}
         elif k == 'addedge':
-            if self.pre(op):
+            if self._pre1(op):
                 self.edges.add(frozenset((op[1], op[2])))
         elif k == 'rmedge':
             self.edges.discard(frozenset((op[1], op[2])))
+
+    # ---- one call, single or bulk
+    def classify(self, op):
+        """('outside' | 'misuse' | 'raises' | 'ok', every element satisfied its precondition): the class of the first
+        element that is not a plain accepted call, the elements taken in order on the state the earlier ones left"""
+        sh = self.copy()
+        allpre = True
+        for e in expand(op):
+            if sh._outside1(e):
+                return 'outside', False
+            if sh._misuse1(e):
+                return 'misuse', False
+            if sh._raises1(e):
+                return 'raises', False
+            allpre = allpre and sh._pre1(e)
+            sh._apply1(e)
+        return 'ok', allpre
+
+    def pre(self, op):
+        return self.classify(op) == ('ok', True)
+
+    def raises(self, op):
+        return self.classify(op)[0] == 'raises'
+
+    def outside(self, op):
+        return self.classify(op)[0] == 'outside'
+
+    def apply(self, op):
+        for e in expand(op):
+            if op[0] in BULK and self._raises1(e):
+                break            # the exception leaves the loop of the bulk call
+            self._apply1(e)
 
 
 def make_graph(rnd, n, kind):
@@ -391,7 +476,9 @@ def make_graph(rnd, n, kind):
     return nodes, es
 
 
-OPKINDS = ['set', 'change', 'addnode', 'rmnode', 'addedge', 'rmedge']
+OPKINDS = ['set', 'change', 'addnode', 'rmnode', 'addedge', 'rmedge', 'addnodes', 'rmnodes', 'addedges', 'rmedges']
+WEIGHTS = [1, 6, 2, 2, 4, 3, 1, 1, 1, 1]
+WEIGHTS_BULK = [1, 3, 1, 1, 1, 1, 3, 3, 4, 3]        # stream 'bulk': mostly the four bulk calls
 
 
 def gen_history(rnd, sh, k, length, universe, stream):
@@ -412,7 +499,7 @@ def gen_history(rnd, sh, k, length, universe, stream):
 
     def valid_op():
         for _ in range(20):
-            kind = rnd.choices(OPKINDS, weights=[1, 6, 2, 2, 4, 3])[0]
+            kind = rnd.choices(OPKINDS, weights=WEIGHTS_BULK if stream == 'bulk' else WEIGHTS)[0]
             pr = present()
             if kind == 'set':
                 c = [n for n in sh.nodes if sh.comp[n] in ('missing', None)]
@@ -448,10 +535,38 @@ def gen_history(rnd, sh, k, length, universe, stream):
                 e = sorted(rnd.choice(sorted(map(sorted, sh.edges))))
                 a, b = (e[0], e[0]) if len(e) == 1 else e
                 return ['rmedge', a, b] if rnd.random() < 0.5 else ['rmedge', b, a]
+            # ---- the bulk calls: one to three elements, each valid on the state the earlier ones leave
+            elif kind == 'addnodes':
+                free = [n for n in universe if n not in sh.comp]
+                if free:
+                    return ['addnodes', rnd.sample(free, rnd.randrange(1, min(3, len(free)) + 1)), rc() if rnd.random() < 0.85 else None]
+            elif kind == 'rmnodes' and pr:
+                pool = pr
+                if stream in ('rmnode_edges', 'bulk'):
+                    pool = [n for n in pr if any(n in e for e in sh.edges)] or pr
+                return ['rmnodes', rnd.sample(pool, rnd.randrange(1, min(3, len(pool)) + 1))]
+            elif kind == 'addedges' and pr:
+                es = []
+                for _ in range(rnd.randrange(1, 4)):
+                    a, b = rnd.choice(pr), rnd.choice(pr)
+                    if stream == 'same_comp_edge':
+                        same = [x for x in pr if x != a and sh.comp[x] == sh.comp[a]]
+                        b = rnd.choice(same) if same else b
+                    if a != b or rnd.random() < 0.3:
+                        es.append([a, b])
+                if es:
+                    return ['addedges', es]
+            elif kind == 'rmedges' and sh.edges:
+                cand = sorted(map(sorted, sh.edges))
+                es = []
+                for e in rnd.sample(cand, rnd.randrange(1, min(3, len(cand)) + 1)):
+                    a, b = (e[0], e[0]) if len(e) == 1 else e
+                    es.append([a, b] if rnd.random() < 0.5 else [b, a])
+                return ['rmedges', es]
         return None
 
     def any_op():
-        kind = rnd.choice(OPKINDS)
+        kind = rnd.choices(OPKINDS, weights=[3, 3, 3, 3, 3, 3, 1, 1, 1, 1])[0]
         a, b = rnd.choice(universe), rnd.choice(universe)
         if kind in ('set', 'change'):
             return [kind, a, rc()]
@@ -459,21 +574,47 @@ def gen_history(rnd, sh, k, length, universe, stream):
             return ['addnode', a, rc() if rnd.random() < 0.7 else None]
         if kind == 'rmnode':
             return ['rmnode', a]
+        if kind in BULK:
+            # a bulk call whose elements are plausible (present nodes, existing edges) or arbitrary: some raise in
+            # the middle, after the earlier elements have taken effect; now and then no element at all
+            cnt = rnd.choice([0, 1, 2, 2, 3, 3])
+            pr = present() or universe
+            pick = lambda: rnd.choice(pr) if rnd.random() < 0.6 else rnd.choice(universe)
+            if kind == 'addnodes':
+                return ['addnodes', [rnd.choice(universe) for _ in range(cnt)], rc() if rnd.random() < 0.7 else None]
+            if kind == 'rmnodes':
+                return ['rmnodes', [pick() for _ in range(cnt)]]
+            if kind == 'rmedges' and sh.edges and rnd.random() < 0.6:
+                cand = sorted(map(sorted, sh.edges))
+                es = [list(rnd.choice(cand)) for _ in range(cnt)]
+                return ['rmedges', [[e[0], e[-1]] for e in es]]       # a repeated edge raises the second time
+            return [kind, [[pick(), pick()] for _ in range(cnt)]]
         return [kind, a, b]
 
     tries = 0
     while len(ops) < length and tries < 10 * length + 20:
         tries += 1
-        if stream == 'readd' and rnd.random() < 0.25:
+        if stream in ('readd', 'bulk') and rnd.random() < 0.25:
             pr = present()
             if pr:
                 n = rnd.choice(pr)
                 nb = [m for m in pr if m != n]
+                if stream == 'bulk':
+                    # remove a node or two with their edges, put them back and reconnect them, all by bulk calls
+                    ns = [n] + ([rnd.choice(nb)] if nb and rnd.random() < 0.5 else [])
+                    rest = [m for m in pr if m not in ns]
+                    push(['rmnodes', ns]); push(['addnodes', list(reversed(ns)), rc()])
+                    es = [[x, rnd.choice(rest)] for x in ns if rest] + ([[ns[0], ns[-1]]] if len(ns) > 1 else [])
+                    if es:
+                        push(['addedges', es])
+                    continue
                 push(['rmnode', n]); push(['addnode', n, rc()])
                 if nb:
                     push(['addedge', n, rnd.choice(nb)])
                 continue
         op = valid_op() if rnd.random() < 0.7 else any_op()
+        if op is not None and sh.classify(op)[0] == 'misuse' and rnd.random() < 0.7:
+            continue      # D cannot judge anything after a misuse that does not raise: keep most histories free of one
         if op is not None:
             push(op)
     return ops[:length]
@@ -496,15 +637,19 @@ class H(Harness):
     THOROUGH_N = 4000
     CASE_TIMEOUT = 20
     ALLOWED_AXIOMS = set()
-    RULE = ('histories of 1-40 calls of setCompartment/changeCompartment/addNode/removeNode/addEdge/removeEdge (about 70 % '
-            'satisfying their precondition) on networks of 2-8 nodes (path/star/complete/tailed triangle/random, both edge '
+    RULE = ('histories of 1-40 calls of setCompartment/changeCompartment/addNode/removeNode/addEdge/removeEdge and of the bulk calls '
+            'addNodesFrom(ns, c=...)/removeNodesFrom/addEdgesFrom/removeEdgesFrom (0-3 elements each; some with an element that '
+            'raises after earlier elements have taken effect) (about 70 % satisfying their precondition; most histories contain no '
+            'misuse that does not raise, so that the direct oracle judges every call of them, also the calls that raise) '
+            'on networks of 2-8 nodes (path/star/complete/tailed triangle/random, both edge '
             'orientations, self-loops), every shipped compartmented model plus synthetic tables (EdgeLocus c c, overlapping loci, '
-            'multi loci), both dynamics, streams: random, rmnode_edges, noop_change, readd, same_comp_edge, selfloop; named multi-instance '
+            'multi loci), both dynamics, streams: random, rmnode_edges, noop_change, readd, same_comp_edge, selfloop, bulk (mostly bulk calls, '
+            'remove/re-add/reconnect by bulk calls), explicit minimal bulk histories for every model with an edge locus; named multi-instance '
             'combinations (two and three named instances in a ProcessSequence built from a dict on one network: interleaved '
             'setCompartment/changeCompartment through each instance with the network fixed, and whole simulated runs; every '
             'instance is compared with its own copy of the model and its own truth after every call of any instance); pairs of '
-            'histories from one set-up state for the state-function clause; all histories of length <= 2 (quick) / <= 3 '
-            '(thorough) over a 3-node universe for the SIR and Opinion tables; a case is non-trivial when at least 3 calls '
+            'histories from one set-up state for the state-function clause (the second one half of the time grouped into bulk calls); all histories of single-element calls of length <= 2 (quick) / <= 3 '
+            '(thorough) over a 3-node universe for the SIR and Opinion tables; one history in six is followed by tearDown and the set-up of a second experiment on the same Dynamics object (direct oracle only); a case is non-trivial when at least 3 calls '
             'satisfied their precondition and some locus was non-empty; distinct by (model, network, initial compartments, calls)')
     TRUSTED = ['Coq 8.16.1 kernel incl. vm_compute',
                'harness/c01.py and vlib (scripted initial compartments, introspection of the loci objects and of _effects, state dumps)',
@@ -516,7 +661,7 @@ class H(Harness):
                    'in a multi-instance combination the network is not mutated through one instance (not a documented use: addNode/removeNode/addEdge/removeEdge of one process do not notify the loci of its siblings); never generated']
 
     # ---------------------------------------------------------------- generation
-    STREAMS = ['random', 'random', 'rmnode_edges', 'noop_change', 'readd', 'same_comp_edge', 'selfloop']
+    STREAMS = ['random', 'random', 'rmnode_edges', 'noop_change', 'readd', 'same_comp_edge', 'selfloop', 'bulk']
     KINDS = ['path', 'star', 'complete', 'tailed_triangle', 'random', 'random', 'loops']
 
     def _one(self, rnd, model, stream, maxlen=40):
@@ -530,7 +675,9 @@ class H(Harness):
         return {'model': model, 'nodes': nodes, 'edges': [list(e) for e in edges], 'init': init, 'universe': universe,
                 'ops': ops, 'stream': stream, 'dynamics': rnd.choice(['stochastic', 'synchronous']),
                 # one case in five starts from the network an earlier experiment left behind (attributes and all)
-                'used': rnd.random() < 0.2}
+                'used': rnd.random() < 0.2,
+                # one case in six is followed by the set-up of the next experiment on the same Dynamics object
+                'again': rnd.random() < 0.17}
 
     # named multi-instance combinations on one network (ProcessSequence from a dict)
     COMBOS = [[['SIR', 'a'], ['SIR', 'b']], [['SIR', 'a'], ['SIS', 'b']], [['Opinion', None], ['SIR', 'x']],
@@ -625,6 +772,18 @@ class H(Harness):
         for e in adde:
             a, b = (e[0], e[0]) if len(e) == 1 else e
             ops.append(['addedge', a, b] if rnd.random() < 0.5 else ['addedge', b, a])
+        if rnd.random() < 0.5:
+            # the same single-element calls, consecutive ones of a kind made as one bulk call of up to three elements
+            grouped = []
+            for op in ops:
+                kind = {'rmedge': 'rmedges', 'rmnode': 'rmnodes', 'addedge': 'addedges'}.get(op[0])
+                if kind is None:
+                    grouped.append(op)
+                elif grouped and grouped[-1][0] == kind and len(grouped[-1][1]) < 3:
+                    grouped[-1][1].append(op[1] if kind == 'rmnodes' else [op[1], op[2]])
+                else:
+                    grouped.append([kind, [op[1] if kind == 'rmnodes' else [op[1], op[2]]]])
+            ops = grouped
         return ops
 
     WITNESS_F10 = {'model': 'Opinion', 'nodes': [0, 1], 'edges': [[0, 1]], 'init': [0, 0], 'universe': [0, 1],
@@ -644,10 +803,18 @@ class H(Harness):
                             ('rmedge_other_orientation', [['rmedge', 0, 1], ['rmedge', 2, 1], ['rmedge', 2, 0]]),
                             ('leave_other_orientation', [['change', 0, 1], ['change', 1, 1], ['change', 0, 0], ['change', 1, 0], ['change', 0, 2]]),
                             ('noop_change', [['change', 0, init[0]], ['change', 1, init[1]], ['change', 1, init[1]]]),
-                            ('selfloop', [['addedge', 1, 1], ['change', 1, 0], ['change', 1, 1], ['rmedge', 1, 1], ['addedge', 0, 0], ['rmnode', 0]])]:
+                            ('selfloop', [['addedge', 1, 1], ['change', 1, 0], ['change', 1, 1], ['rmedge', 1, 1], ['addedge', 0, 0], ['rmnode', 0]]),
+                            # the bulk calls of Process: every element must reach the handlers of the loci
+                            ('bulk', [['rmnodes', [0, 1]]]),
+                            ('bulk', [['rmedges', [[1, 0], [1, 2]]], ['rmedges', [[2, 0]]]]),
+                            ('bulk', [['rmnodes', [1]], ['addnodes', [1, 3], 0], ['addedges', [[1, 0], [2, 1], [3, 1]]], ['addnodes', [], 1]]),
+                            ('bulk', [['rmedges', [[0, 1], [2, 1], [2, 0]]], ['addedges', [[0, 1], [1, 2]]], ['addedges', [[2, 0], [1, 0]]]]),
+                            # an element that raises ends the call: the elements before it have taken effect
+                            ('bulk_raise', [['rmnodes', [0, 3, 1]], ['rmedges', [[1, 2], [0, 1]]], ['addedges', [[2, 2], [2, 3], [1, 2]]],
+                                            ['addnodes', [3], 1], ['addedges', [[3, 2], [1, 3]]]])]:
                 k = n_compartments(model)
                 c = dict(base); c['stream'] = nm
-                c['ops'] = [[o[0], o[1], o[2] % k] if o[0] in ('set', 'change', 'addnode') and o[2] is not None else list(o) for o in ops]
+                c['ops'] = [[o[0], o[1], o[2] % k] if o[0] in ('set', 'change', 'addnode', 'addnodes') and o[2] is not None else list(o) for o in ops]
                 out.append(c)
         return out
 
@@ -714,6 +881,20 @@ class H(Harness):
         for op in ops:
             exc = lv.apply(op)
             dumps.append(lv.dump(U, raised=exc))
+        lv.again = None
+        if case.get('again'):
+            # the next experiment on the SAME Dynamics object (tearDown, setUp as Experiment.run does): reset/build/setUp
+            # must leave loci that are the truth of the fresh working network, whatever the history did to the old ones
+            k = n_compartments(case['model'])
+            lv.d.tearDown()
+            install(Oracle(seed=case.get('seed', 1), script={'random': [(i + 0.5) / k for i in case['init']]}))
+            try:
+                lv.d.setUp(lv.params)
+            except Exception as e:      # observable: the second experiment cannot be set up
+                lv.again = {'raised': type(e).__name__ + ': ' + str(e)[:120]}
+                return lv, d0, dumps, list(ops)
+            v2 = View(case['model'], lv.m, lv.d, k)
+            lv.again = {'raised': None, 'table': v2.table(), 'loci_names': [nm for (nm, _, _) in v2.loci], 'setup': v2.dump(U)}
         return lv, d0, dumps, list(ops)
 
     def _run_multi(self, case):
@@ -789,17 +970,27 @@ class H(Harness):
                'other_loci': lv.other_loci, 'stray_keys': sorted(lv.stray_keys), 'compartments': lv.names,
                'setup': d0, 'after': dumps,
                'init_seen': [d0['attr'][case['universe'].index(n)] for n in case['nodes']]}
+        if getattr(lv, 'again', None):
+            obs['again'] = lv.again
         if case.get('ops_b'):
             lv2, d0b, dumps_b, _ = self._run(case, case['ops_b'])
             obs['after_b'] = dumps_b
             obs['setup_b_same'] = (d0b == d0 and lv2.table() == obs['table'])
-        valid = 0
+        valid = judged = 0
+        misused = False
         sh = Shadow(case['nodes'], [tuple(e) for e in case['edges']], case['init'])
         for op in ops:
-            if sh.pre(op):
+            cls, allpre = sh.classify(op)
+            misused = misused or cls in ('misuse', 'outside')
+            if cls == 'ok' and allpre:
                 valid += 1
+            if not misused:
+                judged += 1          # D judges every call up to the first misuse that does not raise
             sh.apply(op)
         obs['stats'] = {'calls': len(ops), 'calls_pre_ok': valid, 'calls_raised': sum(1 for d in dumps if d['raised']),
+                        'calls_judged_by_D': judged, 'calls_bulk': sum(1 for op in ops if op[0] in BULK),
+                        'bulk_calls_raised': sum(1 for op, d in zip(ops, dumps) if op[0] in BULK and d['raised']),
+                        'second_setup_on_same_dynamics': 1 if obs.get('again') else 0,
                         'stream_' + case.get('stream', '?'): 1, 'model_' + case['model']: 1}
         return obs
 
@@ -869,10 +1060,15 @@ class H(Harness):
         return v
 
     def _walk(self, case, obs, ops, dumps):
-        """check every dump up to the first call that does not satisfy its precondition"""
+        """Judge the state after every call of the history up to the first MISUSE that does not raise.  The calls are
+        classified on the network state their documented effect produces from the set-up state (nodes, edges, who has
+        a compartment: Shadow; no loci involved).  A call that satisfies its precondition must not raise.  A call that
+        has to raise is judged like any other by the state it left behind: whether and how an invalid call fails is
+        not part of the property, but what it leaves is a state user code can observe (for a bulk call the elements
+        before the failing one have taken effect).  After a misuse - setCompartment on a node that has a compartment -
+        the property constrains nothing, so the walk ends there."""
         v = []
         sh = Shadow(case['nodes'], [tuple(e) for e in case['edges']], case['init'])
-        ok = True
         for op, dump in zip(ops, dumps):
             if op is None:
                 # a call made through another named instance: this instance's loci must still be its truth
@@ -880,18 +1076,17 @@ class H(Harness):
                 if v:
                     break
                 continue
-            if not sh.pre(op):
-                ok = False
+            cls, _ = sh.classify(op)
+            if cls in ('misuse', 'outside'):
+                return v, False
             sh.apply(op)
-            if not ok:
-                break
-            if dump['raised']:
+            if cls == 'ok' and dump['raised']:
                 v.append({'signature': 'valid-call-raised:%s' % op[0], 'detail': {'op': op, 'exception': dump['raised']}})
                 break
             v += self._check_dump(case, obs, dump, op[0])
             if v:
                 break
-        return v, ok
+        return v, True
 
     def direct(self, case, obs):
         if 'parts' in obs:
@@ -913,6 +1108,12 @@ class H(Harness):
             return v
         va, oka = self._walk(case, obs, obs['ops'], obs['after'])
         v += va
+        if obs.get('again') and not v:
+            # before the first event of the next experiment on the same Dynamics object (judged whatever the history was)
+            if obs['again']['raised']:
+                v.append({'signature': 'second-setup-raised', 'detail': {'exception': obs['again']['raised'], 'history': obs['ops']}})
+            else:
+                v += self._check_dump(case, obs['again'], obs['again']['setup'], 'setUp-again')
         if case.get('ops_b') and not v:
             vb, okb = self._walk(case, obs, case['ops_b'], obs['after_b'])
             v += vb
@@ -963,22 +1164,31 @@ class H(Harness):
             L.lst([L.lst(l, self._elem) for l in d['loci']]))
 
     @staticmethod
-    def _op(op):
-        if op is None:
-            return 'Other'
+    def _op1(op):
         k = op[0]
         c = lambda i: L.z(i + 1)
         if k == 'set':
-            return '(Own (SetC %s %s))' % (L.z(op[1]), c(op[2]))
+            return '(SetC %s %s)' % (L.z(op[1]), c(op[2]))
         if k == 'change':
-            return '(Own (ChangeC %s %s))' % (L.z(op[1]), c(op[2]))
+            return '(ChangeC %s %s)' % (L.z(op[1]), c(op[2]))
         if k == 'addnode':
-            return '(Own (AddNode %s %s))' % (L.z(op[1]), 'None' if op[2] is None else '(Some %s)' % c(op[2]))
+            return '(AddNode %s %s)' % (L.z(op[1]), 'None' if op[2] is None else '(Some %s)' % c(op[2]))
         if k == 'rmnode':
-            return '(Own (RemoveNode %s))' % L.z(op[1])
+            return '(RemoveNode %s)' % L.z(op[1])
         if k == 'addedge':
-            return '(Own (AddEdge %s %s))' % (L.z(op[1]), L.z(op[2]))
-        return '(Own (RemoveEdge %s %s))' % (L.z(op[1]), L.z(op[2]))
+            return '(AddEdge %s %s)' % (L.z(op[1]), L.z(op[2]))
+        if k == 'rmedge':
+            return '(RemoveEdge %s %s)' % (L.z(op[1]), L.z(op[2]))
+        raise AssertionError(op)
+
+    @staticmethod
+    def _op(op):
+        if op is None:
+            return 'Other'
+        if op[0] in BULK:
+            # one bulk call = its single-element calls in order; the implementation was observed after the whole call
+            return '(Bulk %s)' % L.lst(expand(op), H._op1)
+        return '(Own %s)' % H._op1(op)
 
     def to_coq(self, case, obs):
         if 'parts' in obs:
